@@ -68,9 +68,26 @@ Theorem C16_aware_between : forall M prov fb l r scale from to t lv rv lw,
   nth_error (m_dur l) (from * psize prov + to) = Some lv ->
   nth_error (m_dur r) (from * psize prov + to) = Some rv ->
   nth_error (m_dist l) (from * psize prov + to) = Some lw ->
+  (0 <= lv)%Q -> (0 <= rv)%Q ->
   duration prov fb (m_index l) scale from to t = Val ((lv + (t - ts_of l) / (ts_of r - ts_of l) * (rv - lv)) * scale)%Q /\
   distance prov fb (m_index l) from to t = Val lw.
 Proof. exact aware_between. Qed.
+
+(* ... unless one of the two values is negative, the marker of an unreachable pair: then the LEFT value is returned, for the
+   duration as for the distance (since repair d8f731f of /repo, finding C16-F5; before it the code interpolated through the
+   marker: C16_doc_timed_unreachable_negative_prefix_refuted) *)
+Theorem C16_aware_between_unreachable : forall M prov fb l r scale from to t lv rv lw,
+  build M = Ok prov -> In l M -> In r M -> has_ts l = true -> m_index r = m_index l ->
+  NoDup (map ts_key (group_raw M (m_index l))) ->
+  ts_key l < ztrunc t -> ztrunc t < ts_key r ->
+  (forall x, In x M -> m_index x = m_index l -> ~ (ts_key l < ts_key x /\ ts_key x < ts_key r)) ->
+  nth_error (m_dur l) (from * psize prov + to) = Some lv ->
+  nth_error (m_dur r) (from * psize prov + to) = Some rv ->
+  nth_error (m_dist l) (from * psize prov + to) = Some lw ->
+  (lv < 0)%Q \/ (rv < 0)%Q ->
+  duration prov fb (m_index l) scale from to t = Val (lv * scale)%Q /\
+  distance prov fb (m_index l) from to t = Val lw.
+Proof. exact aware_between_unreachable. Qed.
 
 (* ... and that interpolant lies between the two bracketing values, t lies strictly between the real timestamps *)
 Theorem C16_aware_between_bounds : forall M prov fb l r scale from to t lv rv lw,
@@ -81,6 +98,7 @@ Theorem C16_aware_between_bounds : forall M prov fb l r scale from to t lv rv lw
   nth_error (m_dur l) (from * psize prov + to) = Some lv ->
   nth_error (m_dur r) (from * psize prov + to) = Some rv ->
   nth_error (m_dist l) (from * psize prov + to) = Some lw ->
+  (0 <= lv)%Q -> (0 <= rv)%Q ->
   exists d, duration prov fb (m_index l) scale from to t = Val (d * scale)%Q /\
             (ts_of l < t)%Q /\ (t < ts_of r)%Q /\
             ((lv <= rv)%Q -> (lv <= d)%Q /\ (d <= rv)%Q) /\ ((rv <= lv)%Q -> (rv <= d)%Q /\ (d <= lv)%Q).
@@ -394,15 +412,17 @@ Theorem C16_doc_timed_between : forall d prov vs v,
     nth_error dul (from * psize prov + to) = Some lv ->
     nth_error dur (from * psize prov + to) = Some rv ->
     nth_error dil (from * psize prov + to) = Some lw ->
+    (0 <= lv)%Q -> (0 <= rv)%Q ->
     exists k, vehicle_profile (prof_names d) (dv_profile v) (dv_scale v) = Some (k, dscale v) /\
               duration_tt prov (doc_fallback d) k (dscale v) from to tt
                 = Val ((lv + (tt_time tt - inject_Z tl) / (inject_Z tr - inject_Z tl) * (rv - lv)) * dscale v)%Q /\
               distance_tt prov (doc_fallback d) k from to tt = Val lw.
 Proof. exact doc_timed_between. Qed.
 
-(* ---- unreachable entries inside the interpolation: what the code returns, exactly *)
-(* the LEFT matrix flags the entry: distance = -1, duration = the interpolant from -1 towards the right value *)
-Theorem C16_doc_timed_unreachable_left_exact : forall d prov vs v l r tl tr codes dul dil dur dir from to tt rv e,
+(* ---- clause 4 on time-dependent documents (since repair d8f731f of /repo, finding C16-F5): strictly between two stamps an
+        entry flagged unreachable by the LEFT matrix - the one in force, as for distances - is a negative duration AND a
+        negative distance *)
+Theorem C16_doc_timed_unreachable_negative : forall d prov vs v l r tl tr codes dul dil dur dir from to tt rv e,
   doc_read d = DOk prov vs -> names_known d -> In v (d_vehicles d) ->
   NoDup (map pm_key (filter (pnamed (dv_profile v)) (d_matrices d))) ->
   In l (d_matrices d) -> In r (d_matrices d) ->
@@ -412,15 +432,15 @@ Theorem C16_doc_timed_unreachable_left_exact : forall d prov vs v l r tl tr code
   (forall y, In y (d_matrices d) -> pm_profile y = Some (dv_profile v) -> ~ (pm_key l < pm_key y /\ pm_key y < pm_key r)) ->
   pm_err l = Some codes -> nth_error codes (from * psize prov + to) = Some e -> e > 0 ->
   pm_data2 l = inr (dul, dil) -> pm_data2 r = inr (dur, dir) ->
-  nth_error dur (from * psize prov + to) = Some rv ->
+  nth_error dur (from * psize prov + to) = Some rv -> (0 < dscale v)%Q ->
   exists k, vehicle_profile (prof_names d) (dv_profile v) (dv_scale v) = Some (k, dscale v) /\
-    duration_tt prov (doc_fallback d) k (dscale v) from to tt
-      = Val (((-1 # 1) + (tt_time tt - inject_Z tl) / (inject_Z tr - inject_Z tl) * (rv - (-1 # 1))) * dscale v)%Q /\
+    duration_tt prov (doc_fallback d) k (dscale v) from to tt = Val ((-1 # 1) * dscale v)%Q /\
+    ((-1 # 1) * dscale v < 0)%Q /\
     distance_tt prov (doc_fallback d) k from to tt = Val (-1 # 1)%Q.
-Proof. exact doc_timed_unreachable_left_exact. Qed.
+Proof. exact doc_timed_unreachable_negative. Qed.
 
-(* both bracketing matrices flag the entry: negative duration and distance *)
-Theorem C16_doc_timed_unreachable_both_negative : forall d prov vs v l r tl tr cl cr dul dil dur dir from to tt el er,
+(* only the RIGHT matrix flags the entry: the reachable left entry is returned unchanged (no value falling towards -1) *)
+Theorem C16_doc_timed_right_unreachable_keeps_left : forall d prov vs v l r tl tr codes dul dil dur dir from to tt lv lw e,
   doc_read d = DOk prov vs -> names_known d -> In v (d_vehicles d) ->
   NoDup (map pm_key (filter (pnamed (dv_profile v)) (d_matrices d))) ->
   In l (d_matrices d) -> In r (d_matrices d) ->
@@ -428,24 +448,25 @@ Theorem C16_doc_timed_unreachable_both_negative : forall d prov vs v l r tl tr c
   pm_ts l = Some tl -> pm_ts r = Some tr ->
   pm_key l < ztrunc (tt_time tt) -> ztrunc (tt_time tt) < pm_key r ->
   (forall y, In y (d_matrices d) -> pm_profile y = Some (dv_profile v) -> ~ (pm_key l < pm_key y /\ pm_key y < pm_key r)) ->
-  pm_err l = Some cl -> nth_error cl (from * psize prov + to) = Some el -> el > 0 ->
-  pm_err r = Some cr -> nth_error cr (from * psize prov + to) = Some er -> er > 0 ->
-  pm_data2 l = inr (dul, dil) -> pm_data2 r = inr (dur, dir) -> (0 < dscale v)%Q ->
-  exists k q, vehicle_profile (prof_names d) (dv_profile v) (dv_scale v) = Some (k, dscale v) /\
-    duration_tt prov (doc_fallback d) k (dscale v) from to tt = Val q /\ (q < 0)%Q /\
-    distance_tt prov (doc_fallback d) k from to tt = Val (-1 # 1)%Q.
-Proof. exact doc_timed_unreachable_both_negative. Qed.
+  pm_err r = Some codes -> nth_error codes (from * psize prov + to) = Some e -> e > 0 ->
+  pm_data2 l = inr (dul, dil) -> pm_data2 r = inr (dur, dir) ->
+  nth_error dul (from * psize prov + to) = Some lv -> nth_error dil (from * psize prov + to) = Some lw ->
+  exists k, vehicle_profile (prof_names d) (dv_profile v) (dv_scale v) = Some (k, dscale v) /\
+    duration_tt prov (doc_fallback d) k (dscale v) from to tt = Val (lv * dscale v)%Q /\
+    distance_tt prov (doc_fallback d) k from to tt = Val lw.
+Proof. exact doc_timed_right_unreachable_keeps_left. Qed.
 
-(* FINDING C16-F5.  "entries flagged unreachable surface as negative values" fails for time-dependent documents: the left
-   matrix (the one in force for distances, which are -1) flags (0,1), yet strictly between the two stamps the duration is
-   the interpolant towards the right value: stamps 10 / 18, right value 100, t = 14 gives 49.5 *)
-Theorem C16_doc_timed_unreachable_negative_refuted :
+(* the former finding C16-F5, restated about the lookup BEFORE repair d8f731f (duration_prefix): the left matrix flags (0,1),
+   stamps 10 / 18, right value 100, t = 14: the pre-fix duration is the interpolant 49.5 >= 0 while the distance is -1; the
+   repaired lookup returns -1 *)
+Theorem C16_doc_timed_unreachable_negative_prefix_refuted :
   exists d prov vs l codes t q w,
     doc_read d = DOk prov vs /\ In l (d_matrices d) /\ pm_err l = Some codes /\ nth_error codes (0 * psize prov + 1) = Some 1 /\
     pm_ts l = Some 10 /\ (inject_Z 10 < t)%Q /\ (t < inject_Z 18)%Q /\
-    duration_tt prov (doc_fallback d) 0 1%Q 0 1 (TDeparture t) = Val q /\ (0 <= q)%Q /\
-    distance_tt prov (doc_fallback d) 0 0 1 (TDeparture t) = Val w /\ (w < 0)%Q.
-Proof. exact doc_timed_unreachable_negative_refuted. Qed.
+    duration_prefix prov (doc_fallback d) 0 1%Q 0 1 t = Val q /\ (0 <= q)%Q /\
+    distance_tt prov (doc_fallback d) 0 0 1 (TDeparture t) = Val w /\ (w < 0)%Q /\
+    duration_tt prov (doc_fallback d) 0 1%Q 0 1 (TDeparture t) = Val ((-1 # 1) * 1)%Q.
+Proof. exact doc_timed_unreachable_negative_prefix_refuted. Qed.
 
 (* ---- rejection exactly when inconsistent, on documents.  doc_consistent (Proofs/RoutingDocP.v), written out here:
         one side length n for travelTimes / distances / errorCodes of every matrix; the routing rules E1500..E1505;
@@ -468,12 +489,11 @@ Theorem C16_doc_consistent_accepted : forall d n,
   exists prov vs, doc_read d = DOk prov vs.
 Proof. exact doc_consistent_accepted_unfolded. Qed.
 
-(* the converse holds when the errorCodes / travelTimes lengths equal the distances length and every matrix name is a fleet
-   profile; _partial: without these two side conditions the converse is FALSE (the two witnesses below) *)
+(* the converse holds when every matrix name is a fleet profile (since repair 7d3c5fe of /repo, finding C16-F4, the length
+   condition on errorCodes / travelTimes is enforced by the reader and no longer a hypothesis); _partial: without the side
+   condition on the names the converse is FALSE (open finding C16-F3, witness below) *)
 Theorem C16_doc_accepted_consistent_partial : forall d prov vs,
   doc_read d = DOk prov vs ->
-  (forall pm codes, In pm (d_matrices d) -> pm_err pm = Some codes ->
-     length codes = length (pm_dists pm) /\ length (pm_times pm) = length (pm_dists pm)) ->
   (forall pm nm, In pm (d_matrices d) -> pm_profile pm = Some nm -> In nm (prof_names d)) ->
   doc_consistent d.
 Proof. exact doc_accepted_consistent. Qed.
@@ -489,15 +509,23 @@ Theorem C16_doc_unknown_name_by_position_refuted :
     doc_read d' = DRejected DProfileCount.
 Proof. exact doc_unknown_name_by_position_refuted. Qed.
 
-(* FINDING C16-F4.  errorCodes longer than the data, positive surplus up to the next square: a 2x2 matrix with 9 codes on
-   a document with 2 locations gives a provider of size 3; cell (1,0) (supplied: 12) answers 0, the supplied cell (1,1) *)
-Theorem C16_doc_error_codes_resize_refuted :
+(* the former finding C16-F4, restated about the reader BEFORE repair 7d3c5fe (doc_read_prefix): errorCodes longer than the
+   data, positive surplus up to the next square: a 2x2 matrix with 9 codes on a document with 2 locations gave a provider of
+   size 3, cell (1,0) (supplied: 12) answered 0, the supplied cell (1,1); the repaired reader rejects the document *)
+Theorem C16_doc_error_codes_resize_prefix_refuted :
   exists d prov vs pm codes,
-    doc_read d = DOk prov vs /\ d_matrices d = [pm] /\ pm_err pm = Some codes /\
+    doc_read_prefix d = DOk prov vs /\ d_matrices d = [pm] /\ pm_err pm = Some codes /\
     length (pm_dists pm) = 4%nat /\ length codes = 9%nat /\ ci_len (d_locs d) = 2%nat /\ psize prov = 3%nat /\
     nth_error (pm_times pm) (1 * 2 + 0) = Some 12 /\
-    duration_tt prov (doc_fallback d) 0 1%Q 1 0 (TDeparture 0) = Val 0%Q.
-Proof. exact doc_error_codes_resize_refuted. Qed.
+    duration_tt prov (doc_fallback d) 0 1%Q 1 0 (TDeparture 0) = Val 0%Q /\
+    doc_read d = DRejected DCodesLength.
+Proof. exact doc_error_codes_resize_prefix_refuted. Qed.
+
+(* an accepted matrix with errorCodes has the three lengths equal (repair 7d3c5fe) *)
+Theorem C16_doc_error_codes_lengths : forall pm codes du di,
+  pm_err pm = Some codes -> pm_data2 pm = inr (du, di) ->
+  length codes = length (pm_dists pm) /\ length (pm_times pm) = length (pm_dists pm).
+Proof. exact pm_data2_codes_fit. Qed.
 
 (* ---- clause 5: coordinate documents read without matrices (map_to_problem_with_approx), relative to an abstract
         distance function hav on coordinate identifiers (haversine: libm trigonometry, not modelled).
@@ -544,18 +572,38 @@ Theorem C16_doc_approx_symmetric_zero_diag : forall hav : nat -> nat -> Q,
       distance_tt prov (doc_fallback d) k i i tt = Val (inject_Z 0).
 Proof. exact doc_approx_symmetric_zero_diag. Qed.
 
-(* FINDING C16-F6.  The hypothesis `hav a b == hav b a` is NOT met by the real haversine function: it evaluates
-   sin^2(dlng/2) * cos(lat1) * cos(lat2) left to right, so swapping the points re-associates a binary64 product and the
-   result can differ in the last bit.  When the distance lies at a rounding boundary the ROUNDED matrix is asymmetric:
-   with the two values the real function returns for the points of corpus C16/c16_doc/approx-asymmetric-last-bit.json
-   (they differ by 2^-31, one unit in the last place) cell (0,1) is 2270455 and cell (1,0) is 2270456 *)
-Theorem C16_approx_symmetric_last_bit_refuted :
+(* the former finding C16-F6.  Before repair d74b2b6 the real haversine function evaluated
+   sin^2(dlng/2) * cos(lat1) * cos(lat2) left to right, so swapping the points re-associated a binary64 product and the result
+   could differ in the last bit: with the two values the PRE-FIX function returned for the points of corpus
+   C16/c16_doc/approx-asymmetric-last-bit.json (2^-31 apart, one unit in the last place) cell (0,1) is 2270455 and cell (1,0)
+   is 2270456 - symmetry of the ROUNDED matrix needs an exactly symmetric distance *)
+Theorem C16_approx_symmetric_last_bit_prefix_refuted :
   exists (hav : nat -> nat -> Q) (a b : nat),
     (forall x y, (0 <= hav x y)%Q) /\ (forall x, (hav x x == 0)%Q) /\
     (hav b a - hav a b == 1 # 2147483648)%Q /\
     nth_error (approx_distances hav qround [a; b]) (0 * 2 + 1) = Some 2270455 /\
     nth_error (approx_distances hav qround [a; b]) (1 * 2 + 0) = Some 2270456.
-Proof. exact approx_symmetric_last_bit_refuted. Qed.
+Proof. exact approx_symmetric_last_bit_prefix_refuted. Qed.
+
+(* since repair d74b2b6 the STRUCTURE of get_haversine_distance (Model/RoutingDoc.v `haversine true`: degree_rad, the two half-angle
+   sines, the product of the two cosines taken FIRST, atan2 of the two roots, the WGS-84 radius at the latitude difference) is
+   symmetric in its two points over ANY carrier whose operations obey the sign laws of binary64 arithmetic with an odd sine and an
+   even cosine and whose multiplication is commutative - associativity, which binary64 lacks, is not used.  This is the
+   hypothesis `hav a b == hav b a` of C16_doc_approx_symmetric_zero_diag, to the last bit, as far as the structure goes (the
+   libm values themselves are not modelled) *)
+Theorem C16_haversine_structure_symmetric : forall (F : Type)
+    (fadd fsub fmul fdiv : F -> F -> F) (fneg fsin fcos fsqrt : F -> F) (fatan2 : F -> F -> F) (one two pi c180 wa wb : F),
+  (forall a b, fmul a b = fmul b a) ->
+  (forall a b, fsub a b = fneg (fsub b a)) ->
+  (forall a b, fmul a (fneg b) = fneg (fmul a b)) ->
+  (forall a b, fmul (fneg a) (fneg b) = fmul a b) ->
+  (forall a b, fdiv (fneg a) b = fneg (fdiv a b)) ->
+  (forall a, fsin (fneg a) = fneg (fsin a)) ->
+  (forall a, fcos (fneg a) = fcos a) ->
+  forall p1 p2,
+    haversine F fadd fsub fmul fdiv fsin fcos fsqrt fatan2 one two pi c180 wa wb true p1 p2 =
+    haversine F fadd fsub fmul fdiv fsin fcos fsqrt fatan2 one two pi c180 wa wb true p2 p1.
+Proof. exact haversine_fixed_symmetric. Qed.
 
 (* ---- non-vacuity of the document-level hypotheses *)
 Theorem C16_nonvacuous_doc_named :
